@@ -41,6 +41,9 @@ struct Stats {
     single_char_commits: u64,
     non_commit_keys: u64,
     api_calls_buffer_kept: u64,
+    conv_calls: u64,
+    conv_calls_multi_alt: u64,
+    conv_calls_alt_text_differs: u64,
     samples: u64,
 }
 
@@ -223,8 +226,24 @@ fn auto_commit(out: &mut Out, st: &Step, by_key: bool) {
     });
 }
 
+fn path_text(p: &[chewing::conversion::Interval]) -> String {
+    p.iter().map(|i| i.str.to_string()).collect()
+}
+
 pub fn check(out: &mut Out, st: &Step) {
     let (pre, post, ret) = (st.pre, st.post, st.ret);
+    STATS.with(|s| {
+        let mut s = s.borrow_mut();
+        for (_, _, paths) in st.conv {
+            s.conv_calls += 1;
+            if paths.len() > 1 {
+                s.conv_calls_multi_alt += 1;
+                if paths.iter().any(|p| path_text(p) != path_text(&paths[0])) {
+                    s.conv_calls_alt_text_differs += 1;
+                }
+            }
+        }
+    });
     let (a, b) = (sections(pre), sections(post));
     let (ma, mb) = (misc(pre), misc(post));
     // the commit string the application sees is the snapshot's commit buffer
@@ -305,6 +324,9 @@ pub fn check(out: &mut Out, st: &Step) {
 pub fn stats(out: &mut Out) {
     STATS.with(|s| {
         let s = s.borrow();
+        out.stat("c02_conv_calls", s.conv_calls);
+        out.stat("c02_conv_calls_multi_alt", s.conv_calls_multi_alt);
+        out.stat("c02_conv_calls_alt_text_differs", s.conv_calls_alt_text_differs);
         out.stat("c02_key_steps", s.key_steps);
         out.stat("c02_whole_commits", s.whole_commits_key + s.whole_commits_api);
         out.stat("c02_whole_commits_key", s.whole_commits_key);
